@@ -138,6 +138,17 @@ def check_case(run, members, fbp, extra_bp, exit_on_exception):
                     return None
                 return out[1]
             r = judge_solve(live, "first solve")
+            if r is not None:
+                # "After solving, we only keep the solver that finished first": the losers are stopped (they share
+                # the control pipe with the winner, so a survivor would answer the winner's requests)
+                t_end = time.time() + 3.0
+                while len(multiprocessing.active_children()) > 1 and time.time() < t_end:
+                    time.sleep(0.05)
+                alive = len(multiprocessing.active_children())
+                run.cls("losers-checked")
+                if alive > 1:
+                    run.fail({"subcheck": "portfolio:loser-left-running"}, case,
+                             "%d member processes are still alive 3 s after solve() returned (members %r)" % (alive, members))
             if r is True:
                 out = call_with_deadlock_watch(lambda: port.get_model())
                 if out[0] == "deadlock":
